@@ -96,6 +96,8 @@ def plan(tier, seed):
         tok = [[0], [0, 1], [0, 1, 2], [0, 1, 2, 3], ['<', 0, 1, 2, 3], [0, 1, 2, 3, 4]]
         nl = [[0, 1, 2], [0, 1, 2, 3], ['a', 0, 1, 'b', 2, 3]]
         to_tag, to_doc, to_tok = 900, 900, 900
+    # a valueless attribute followed by an attribute whose *name* is symbolic (names are not dict keys here)
+    tag_jobs += [['<x b ', 0, '="v">'], ['<x b ', 0, 1, '="v">'], ['<x b', 0, 1, '=v c>'], ['<x ', 0, ' ', 1, '=v>']]
     fams = [
         dict(name='iter_xml_tiles', module=H, fn='tok_tiles', jobs=[{'shape': s} for s in tok],
              timeout=to_tok, vacuity=1,
